@@ -9,6 +9,7 @@ REPO="${1:?usage: build.sh <repo> <outdir> [--san]}"; OUT="${2:?usage: build.sh 
 HERE="$(cd "$(dirname "$0")" && pwd)"
 export GOFLAGS=-mod=mod GOPROXY=off GOSUMDB=off GOTOOLCHAIN=local
 export GOCACHE="${GOCACHE:-/root/.cache/go-build}"
+export TMPDIR="${2}"   # compiler temporaries stay in the work dir, not /tmp
 fail() { echo "kshim/build.sh: FAILED: $*" >&2; exit 2; }
 CC="${KSHIM_CC:-clang}"
 command -v "$CC" >/dev/null || fail "no $CC"
